@@ -16,7 +16,7 @@ FUNCTIONS = ["wannierberri.system.interpolate.SystemInterpolator.__init__/interp
              "wannierberri.fourier.rvectors.Rvectors.set_fft_R_to_k/R_to_k (k-list mode)", "wannierberri.data_K.data_K_R.Data_K_R.HH_K/Xbar",
              "wannierberri.data_K.data_K_soc.Data_K_soc.HH_K", "wannierberri.system.system_soc.SystemSOC.set_soc_axis"]
 BOUNDS = dict(quick=dict(num_wann="1..2", R_sets="pairs of R-vector sets (equal / subset / overlapping only at R=0), 3..5 vectors each", matrices="Ham, AA, SS (SS in one system only: excluded key); "
-                         "SOC variant: dV_soc_wann_*, overlap_up_down, Ham_SOC, SS + up/down subsystems", data="symbolic complex, X(-R)=X(R)^+", centres="symbolic",
+                         "SOC variant (nspin 1->1, 2->2, 1->2, 2->1): dV_soc_wann_*, overlap_up_down, Ham_SOC, SS + up/down subsystems", data="symbolic complex, X(-R)=X(R)^+", centres="symbolic",
                          alpha="symbolic real (and the constants 0, 1)", k="symbolic (one free unit-circle phase per R-vector), 1 k-point", use_pointgroup="-1, 0, 1"),
               thorough=dict(num_wann="1..3", R_sets="as quick plus a set that is not closed under inversion, up to 7 vectors", matrices="as quick", data="symbolic complex",
                             centres="symbolic", alpha="symbolic", k="symbolic, 2 k-points", use_pointgroup="-1, 0, 1"))
@@ -136,35 +136,35 @@ def obligations(rec, spec, A, k, xp):
 
 
 # ------------------------------------------------------------------------------------------------------------
-# SOC variant
+# SOC variant.  spec["nspin"] = [nspin of system0, nspin of system1]; a non-magnetic system (nspin=1) uses its up channel as its down channel
 def soc_arrays_for(spec):
     nb = spec["nb"]
     A = {}
     for w in (0, 1):
-        for ud, tag in enumerate(("u", "d")[:spec["nspin"]]):
+        for ud, tag in enumerate(("u", "d")[:spec["nspin"][w]]):
             iR = spec["iRud"][w][ud]
             A[f"{tag}c{w}"] = symvec(f"{tag}c{w}", (nb, 3))
             A[f"{tag}X{w}_Ham"] = hermR(f"{tag}H{w}", iR, nb)
         iR = spec["iR"][w]
-        for key in soc_keys(spec):
+        for key in soc_keys(spec["nspin"][w]):
             A[f"X{w}_{key}"] = hermR(f"X{w}{key[-6:]}", iR, nb, CART[key], hermitian=key in ("dV_soc_wann_0_0", "dV_soc_wann_1_1"))
     A["alpha"] = sarr([SymC.var("alpha")])
     A["angles"] = sarr([SymC.var("theta"), SymC.var("phi"), SymC.var("asoc")])
     return A
 
 
-def soc_keys(spec):
-    return ["dV_soc_wann_0_0"] + (["dV_soc_wann_1_1", "dV_soc_wann_0_1", "overlap_up_down"] if spec["nspin"] == 2 else [])
+def soc_keys(nspin):
+    return ["dV_soc_wann_0_0"] + (["dV_soc_wann_1_1", "dV_soc_wann_0_1", "overlap_up_down"] if nspin == 2 else [])
 
 
 def mk_soc(spec, A, w):
     sub = []
-    for ud, tag in enumerate(("u", "d")[:spec["nspin"]]):
+    for ud, tag in enumerate(("u", "d")[:spec["nspin"][w]]):
         sp = dict(nb=spec["nb"], iR={w: spec["iRud"][w][ud]}, keys={w: ["Ham"]})
         sub.append(mk_system(sp, A, w, pre=tag))
     s = SSOC.SystemSOC(*sub, silent=True)
     s.rvec = RV.Rvectors(lattice=LAT, iRvec=np.array(spec["iR"][w]), shifts_left_red=s.wannier_centers_cart.dot(np.linalg.inv(LAT)))
-    for key in soc_keys(spec):
+    for key in soc_keys(spec["nspin"][w]):
         s.set_R_mat(key, A[f"X{w}_{key}"].copy())
     s.has_soc = True
     th, ph, a = A["angles"]
@@ -174,30 +174,36 @@ def mk_soc(spec, A, w):
 
 def soc_obligations(rec, spec, A, k, xp):
     al = A["alpha"][0]
+    ns = spec["nspin"]
     s0, s1 = mk_soc(spec, A, 0), mk_soc(spec, A, 1)
     ip = IP.SystemInterpolatorSOC(s0, s1, use_pointgroup=-1)
     sa, e0, e1 = ip.interpolate(al), ip.interpolate(0.0), ip.interpolate(1.0)
     union = sorted(set(map(tuple, spec["iR"][0])) | set(map(tuple, spec["iR"][1])))
     iRn = [tuple(int(x) for x in r) for r in sa.rvec.iRvec]
     rec.concrete("SOC: R-set of the interpolated SOC matrices is the union", sorted(iRn) == union, key="SystemInterpolatorSOC R-set is not the union")
-    keys = soc_keys(spec) + ["Ham_SOC", "SS"]
-    rec.concrete("SOC: all SOC matrices kept", all(sorted(e._XX_R) == sorted(keys) for e in (sa, e0, e1)), detail=str(sorted(sa._XX_R)), key="SystemInterpolatorSOC matrix set")
+    keys = sorted((set(soc_keys(ns[0])) & set(soc_keys(ns[1]))) | {"Ham_SOC", "SS"})        # matrices present in both systems
+    rec.concrete("SOC: exactly the common SOC matrices kept", all(sorted(e._XX_R) == keys for e in (sa, e0, e1)), detail=str(sorted(sa._XX_R)), key="SystemInterpolatorSOC matrix set")
     o = [mk_soc(spec, A, 0), mk_soc(spec, A, 1)]
     for key in keys:
         z0, z1 = (zero_fill(o[w]._XX_R[key], spec["iR"][w], iRn, xp) for w in (0, 1))
         rec.eq(f"SOC {key}(alpha) == (1-alpha)*X0 + alpha*X1", sa._XX_R[key], (1 - al) * z0 + al * z1, key="SystemInterpolatorSOC matrices not (1-alpha)*X0+alpha*X1")
         rec.eq(f"SOC {key}(0) == system0", e0._XX_R[key], z0, key="SystemInterpolatorSOC interpolate(0) differs from system0")
         rec.eq(f"SOC {key}(1) == system1", e1._XX_R[key], z1, key="SystemInterpolatorSOC interpolate(1) differs from system1")
-    for ud, tag in enumerate(("up", "down")[:spec["nspin"]]):
-        unionud = sorted(set(map(tuple, spec["iRud"][0][ud])) | set(map(tuple, spec["iRud"][1][ud])))
-        sub = getattr(sa, "system_" + tag)
-        iRs = [tuple(int(x) for x in r) for r in sub.rvec.iRvec]
-        rec.concrete(f"SOC system_{tag}: R-set is the union", sorted(iRs) == unionud, key="SystemInterpolatorSOC subsystem R-set is not the union")
-        z0, z1 = (zero_fill(getattr(o[w], "system_" + tag)._XX_R["Ham"], spec["iRud"][w][ud], iRs, xp) for w in (0, 1))
-        rec.eq(f"SOC system_{tag} Ham(alpha) == (1-alpha)*H0 + alpha*H1", sub._XX_R["Ham"], (1 - al) * z0 + al * z1, key="SystemInterpolatorSOC subsystem Ham not (1-alpha)*X0+alpha*X1")
-        c = [getattr(o[w], "system_" + tag).wannier_centers_cart for w in (0, 1)]
-        rec.eq(f"SOC system_{tag} centres affine", sub.wannier_centers_cart, (1 - al) * c[0] + al * c[1], key="SystemInterpolatorSOC subsystem centres not affine")
-    rec.concrete("SOC: nspin kept", sa.nspin == spec["nspin"] and (spec["nspin"] == 2 or sa.system_down is sa.system_up), key="SystemInterpolatorSOC nspin")
+    nsn = max(ns)           # one magnetic end point makes the interpolated system magnetic
+    rec.concrete("SOC: nspin of the interpolated system (2 as soon as one end point is magnetic)", all(e.nspin == nsn and (nsn == 2 or e.system_down is e.system_up) for e in (sa, e0, e1)),
+                 detail=f"nspin={sa.nspin}", key="SystemInterpolatorSOC nspin of the interpolated system")
+    for ud, tag in enumerate(("up", "down")[:nsn]):
+        iRw = [spec["iRud"][w][min(ud, ns[w] - 1)] for w in (0, 1)]          # the down channel of a non-magnetic system is its up channel
+        subw = [getattr(o[w], "system_" + tag) for w in (0, 1)]
+        unionud = sorted(set(map(tuple, iRw[0])) | set(map(tuple, iRw[1])))
+        for nm, e, coef in (("alpha", sa, (1 - al, al)), ("0", e0, (1, 0)), ("1", e1, (0, 1))):
+            sub = getattr(e, "system_" + tag)
+            iRs = [tuple(int(x) for x in r) for r in sub.rvec.iRvec]
+            rec.concrete(f"SOC system_{tag}({nm}): R-set is the union", sorted(iRs) == unionud, key="SystemInterpolatorSOC subsystem R-set is not the union")
+            z0, z1 = (zero_fill(subw[w]._XX_R["Ham"], iRw[w], iRs, xp) for w in (0, 1))
+            rec.eq(f"SOC system_{tag} Ham({nm}) == (1-alpha)*H0 + alpha*H1", sub._XX_R["Ham"], coef[0] * z0 + coef[1] * z1, key=f"SystemInterpolatorSOC system_{tag} Ham not (1-alpha)*X0+alpha*X1")
+            rec.eq(f"SOC system_{tag} centres({nm}) affine", sub.wannier_centers_cart, coef[0] * subw[0].wannier_centers_cart + coef[1] * subw[1].wannier_centers_cart,
+                   key=f"SystemInterpolatorSOC system_{tag} centres not affine")
     rec.eq("SOC centres(alpha) affine", sa.wannier_centers_cart, (1 - al) * o[0].wannier_centers_cart + al * o[1].wannier_centers_cart, key="SystemInterpolatorSOC centres not affine")
     H = [datak(x, k, DKS.Data_K_soc).HH_K for x in (e0, e1, sa, o[0], o[1])]
     rec.eq("SOC H(k) at alpha=0 == H(k) of system0", H[0], H[3], key="SystemInterpolatorSOC interpolate(0) H(k) differs from system0")
@@ -231,10 +237,10 @@ def cases(tier, seed):
             for pg in ((-1,) if (nb > 1 or (a, b) != ("A", "B")) else (-1, 0, 1)):
                 spec = dict(nb=nb, iR=[RSETS[a], RSETS[b]], keys=[k0, k1], use_pg=pg, nk=1 if q else 2)
                 out.append(Case(f"interp nb={nb} R={a}/{b} keys={'+'.join(k0)}/{'+'.join(k1)} pg={pg}", case_interp, dict(spec=spec), timeout=900))
-    for nspin in (1, 2):
+    for nspin in ([1, 1], [2, 2], [1, 2], [2, 1]):
         for nb in ((1,) if q else (1, 2)):
             spec = dict(nb=nb, nspin=nspin, iR=[RSETS["A"], RSETS["C"]], iRud=[[RSETS["A"], RSETS["B"]], [RSETS["B"], RSETS["C"]]], nk=1)
-            out.append(Case(f"interpSOC nspin={nspin} nb={nb}", case_interp, dict(spec=spec), timeout=900))
+            out.append(Case(f"interpSOC nspin={nspin[0]}->{nspin[1]} nb={nb}", case_interp, dict(spec=spec), timeout=900))
     return out
 
 
